@@ -29,6 +29,59 @@ pub fn out(line: String) {
     OUT.with(|o| o.borrow_mut().push(line));
 }
 
+thread_local! {
+    /// body index of the loom thread whose instruction is being executed
+    static CUR_BODY: std::cell::Cell<usize> = std::cell::Cell::new(0);
+}
+
+/// value of the harness's thread-locals: remembers which thread initialised it
+pub struct TlsVal(usize, usize);
+
+impl TlsVal {
+    fn new(k: usize) -> TlsVal {
+        let b = CUR_BODY.with(|c| c.get());
+        out(format!("I tls {} {}", k, b));
+        TlsVal(k, b)
+    }
+}
+
+impl Drop for TlsVal {
+    fn drop(&mut self) {
+        out(format!("D tls {} {}", self.0, self.1));
+    }
+}
+
+/// value of the harness's lazy statics: a loom cell written by the initialiser
+pub struct LzVal {
+    k: usize,
+    cell: loom::cell::UnsafeCell<usize>,
+}
+
+impl LzVal {
+    fn new(k: usize) -> LzVal {
+        out(format!("I lazy {}", k));
+        let cell = loom::cell::UnsafeCell::new(0);
+        cell.with_mut(|p| unsafe { *p = 41 + k });
+        LzVal { k, cell }
+    }
+}
+
+impl Drop for LzVal {
+    fn drop(&mut self) {
+        out(format!("D lazy {}", self.k));
+    }
+}
+
+loom::thread_local! {
+    static TL0: TlsVal = TlsVal::new(0);
+    static TL1: TlsVal = TlsVal::new(1);
+}
+
+loom::lazy_static! {
+    static ref LZ0: LzVal = LzVal::new(0);
+    static ref LZ1: LzVal = LzVal::new(1);
+}
+
 pub enum Obj {
     Atomic(Slot<AtomicUsize>),
     Mutex(loom::sync::Mutex<usize>),
@@ -131,6 +184,7 @@ fn apply(op: RmwOp, x: usize, v: usize) -> usize {
 pub fn run_body(p: &'static Prog, t: &'static Table, b: usize) {
     let mut guards: Vec<Guard> = Vec::new();
     for (pc, op) in p.bodies[b].iter().enumerate() {
+        CUR_BODY.with(|c| c.set(b));
         let res = |r: String| out(format!("O {} {} {}", b, pc, r));
         match op {
             Op::Spawn(c) => {
@@ -531,7 +585,21 @@ pub fn run_body(p: &'static Prog, t: &'static Table, b: usize) {
                 }
                 _ => bad("not a track"),
             },
-            Op::TlsWith(_) | Op::LazyGet(_) => bad("tls/lazy: not supported by this interpreter"),
+            Op::TlsWith(k) => {
+                let r = match k {
+                    0 => TL0.try_with(|v| v.0),
+                    _ => TL1.try_with(|v| v.0),
+                };
+                res(if r.is_ok() { "-".into() } else { "gone".into() });
+            }
+            Op::LazyGet(k) => {
+                let v: &LzVal = match k {
+                    0 => &LZ0,
+                    _ => &LZ1,
+                };
+                let x = v.cell.with(|p| unsafe { *p });
+                res(x.to_string());
+            }
             Op::Panic => {
                 res("-".into());
                 panic!("verif-panic");
